@@ -223,3 +223,11 @@ theorem C11_http_stream_facts :
     Gen.serverTrailerAppends = true ∧ Gen.serverSingleRequestProbe = true := by decide
 
 end HttpServerStream
+
+namespace HttpServer
+
+/-- regenerated from httpgrpc/server.go: `Server.ServeHTTP` hands the request to the mux as it is — no rewriting of the
+    path in front of it, so only the exact registered paths reach the gate modelled here (404 otherwise) -/
+theorem C11_serve_http_dispatches_unchanged : Gen.serveHTTPBody = "{ s.mux.ServeHTTP(w, r) }" := by decide
+
+end HttpServer
